@@ -5,6 +5,7 @@
 package main
 
 import (
+	"math"
 	"fmt"
 	"os"
 	"regexp"
@@ -265,6 +266,10 @@ func main() {
 	closed := closedAll
 	bursts, burstOps := burstFamily(r, all)
 	transitions += burstOps
+	vsched.PoolRetain = 1
+	_, payOps := payloadFamily(r)
+	transitions += payOps
+	vsched.PoolRetain = 0
 	r.Cov["states"] = len(seen)
 	r.Cov["transitions"] = transitions
 	r.Cov["traces_validated_against_impl"] = transitions
@@ -360,6 +365,112 @@ func burstFamily(r *lib.Report, all []op) (int, int) {
 		}
 	}
 	return maxN, opsDone
+}
+
+// payloadFamily: the container is generic, what it stores is opaque to it. Every history up to depth 5 over
+// {Offer, Unshift, Poll, Pop, Peek}, the i-th insertion storing the (offset+i)-th value of a table, for every
+// offset, on several instantiations: interface{} (lib.Payloads(): nil, a typed nil pointer, zero values,
+// -0.0, two distinct pointers to equal values, an error value, ...), float64 (-0, +0, NaN-free), *int
+// (nil and equal-but-distinct pointers), string, a struct with a pointer field. Removals and Peek return
+// exactly the stored value (lib.Show renders identity and sign).
+func payloadFamily(r *lib.Report) (int, int) {
+	h, o := 0, 0
+	add := func(a, b int) { h, o = h+a, o+b }
+	add(historiesOver(r, "interface{}", lib.Payloads(), func(v interface{}) string { return lib.Show(v) }))
+	add(historiesOver(r, "float64", []float64{math.Copysign(0, -1), 0, 1.5, math.Inf(-1)}, func(v float64) string { return lib.Show(v) }))
+	add(historiesOver(r, "*int", []*int{nil, lib.P1, lib.P2}, func(v *int) string { return lib.Show(v) }))
+	add(historiesOver(r, "string", []string{"", "a", "A"}, func(v string) string { return lib.Show(v) }))
+	add(historiesOver(r, "lib.Tagged", []lib.Tagged{{}, {N: 1, P: lib.P1}, {N: 1, P: lib.P2}}, func(v lib.Tagged) string { return lib.Show(v) }))
+	add(historiesOver(r, "bool", []bool{false, true}, func(v bool) string { return lib.Show(v) }))
+	return h, o
+}
+
+func historiesOver[T any](r *lib.Report, tname string, pay []T, show func(T) string) (int, int) {
+	names := []string{"Offer", "Unshift", "Poll", "Pop", "Peek"}
+	histories, opsDone := 0, 0
+	var hist []int
+	var rec func()
+	run := func(offset int) string {
+		q := fpgo.NewLinkedListQueue[T]()
+		var m []T
+		ins := 0
+		for step, o := range hist {
+			opsDone++
+			switch names[o] {
+			case "Offer", "Unshift":
+				v := pay[(offset+ins)%len(pay)]
+				ins++
+				if names[o] == "Offer" {
+					q.Offer(v)
+					m = append(m, v)
+				} else {
+					q.Unshift(v)
+					m = append([]T{v}, m...)
+				}
+			case "Poll", "Pop", "Peek":
+				var got T
+				var err error
+				idx := 0
+				switch names[o] {
+				case "Poll":
+					got, err = q.Poll()
+				case "Pop":
+					got, err = q.Pop()
+					idx = len(m) - 1
+				default:
+					got, err = q.Peek()
+				}
+				if len(m) == 0 {
+					if err == nil {
+						return fmt.Sprintf("step %d %s on an empty queue returned %s with a nil error", step, names[o], show(got))
+					}
+					continue
+				}
+				if err != nil || show(got) != show(m[idx]) {
+					return fmt.Sprintf("step %d %s returned (%s, %v), the stored value is %s", step, names[o], show(got), err, show(m[idx]))
+				}
+				if names[o] == "Poll" {
+					m = m[1:]
+				} else if names[o] == "Pop" {
+					m = m[:len(m)-1]
+				}
+			}
+			if q.Count() != len(m) {
+				return fmt.Sprintf("step %d: Count()=%d, %d values are stored", step, q.Count(), len(m))
+			}
+		}
+		return ""
+	}
+	rec = func() {
+		if len(hist) > 0 {
+			for offset := range pay {
+				histories++
+				fail := ""
+				if p := lib.Catch(func() { fail = run(offset) }); p != "" {
+					fail = "panic: " + p
+				}
+				if fail != "" {
+					var hn []string
+					for _, o := range hist {
+						hn = append(hn, names[o])
+					}
+					r.Violation("C06|payload|"+tname, fmt.Sprintf("history %v on LinkedListQueue[%s], insertions store the value table from index %d on: %s", hn, tname, offset, fail),
+						map[string]interface{}{"history": hn, "element_type": tname, "payload_offset": offset})
+					return
+				}
+			}
+		}
+		if len(hist) == 5 {
+			return
+		}
+		for o := range names {
+			hist = append(hist, o)
+			rec()
+			hist = hist[:len(hist)-1]
+		}
+	}
+	rec()
+	return histories, opsDone
 }
 
 func goTest(all []op, h []int) string {
